@@ -602,6 +602,16 @@ class CallMixin:
     def b_rasterio_windows_Window(self, args, kw, st, n):
         return self.b_Window(args, kw, st, n)
 
+    def b_repr(self, args, kw, st, n):
+        if isinstance(args[0], (str, int)):
+            return repr(args[0])
+        raise Unsupported("repr of symbolic value")
+
+    def m_split(self, recv, args, kw, st, n):
+        if isinstance(recv, str) and all(isinstance(a, str) for a in args):
+            return SList(recv.split(*args))
+        raise Unsupported("split on a symbolic string (line %d)" % n.lineno)
+
     def b_str(self, args, kw, st, n):
         if isinstance(args[0], (str, int)):
             return str(args[0])
